@@ -13,11 +13,26 @@
 (* memory at any time, so that TLC shows what a second munmap of the same range can hit.      *)
 EXTENDS Integers, Sequences, FiniteSets, TLC
 
-RInit == [fd |-> -1, closed |-> FALSE, maps |-> {}, dropping |-> FALSE, why |-> ""]
+NoNeed == [sq |-> 0, cq |-> 0, sqes |-> 0, single |-> FALSE]
+RInit == [fd |-> -1, closed |-> FALSE, maps |-> {}, dropping |-> FALSE, why |-> "", need |-> NoNeed]
 RFlag(r, w) == IF r.why = "" THEN [r EXCEPT !.why = w] ELSE r
 
 RSetup(r, fd) == IF fd < 0 THEN r ELSE [r EXCEPT !.fd = fd]
 RMmap(r, fd, addr, len) == IF r.fd >= 0 /\ fd = r.fd /\ ~r.closed THEN [r EXCEPT !.maps = @ \cup {<<addr, len>>}] ELSE r
+\* set-up with what the kernel's parameters require of each mapping: need.sq = sq_off.array + sq_entries * 4,
+\* need.cq = cq_off.cqes + cq_entries * (16 or 32), need.sqes = sq_entries * (64 or 128); with IORING_FEAT_SINGLE_MMAP
+\* the mapping at offset 0 serves both rings.  A mapping shorter than that leaves part of the ring outside it.
+RSetupN(r, fd, need) == IF fd < 0 THEN r ELSE [r EXCEPT !.fd = fd, !.need = need]
+MaxOf(a, b) == IF a > b THEN a ELSE b
+RMmapO(r, fd, addr, len, off) ==
+    IF ~(r.fd >= 0 /\ fd = r.fd /\ ~r.closed) THEN r
+    ELSE LET needed == IF off = "sq" THEN (IF r.need.single THEN MaxOf(r.need.sq, r.need.cq) ELSE r.need.sq)
+                       ELSE IF off = "cq" THEN r.need.cq
+                       ELSE IF off = "sqes" THEN r.need.sqes ELSE 0
+             r2 == [r EXCEPT !.maps = @ \cup {<<addr, len>>}] IN
+         IF len < needed THEN RFlag(r2, "ring_mapping_smaller_than_kernel_layout") ELSE r2
+\* the process died inside set-up or inside the drop
+RCrashed(r, where) == RFlag(r, IF where = "setup" THEN "crashed_in_setup" ELSE "crashed_while_using_or_dropping_the_ring")
 RDropBegin(r) == [r EXCEPT !.dropping = TRUE]
 RMunmap(r, addr, len) ==
     IF ~r.dropping THEN r
